@@ -3,7 +3,16 @@
 // One Case = (workload, instantiation, fault plan).
 //   cfg = [W, variant, p0, p1, p2, p3, reset_hard, mode, hist]
 //     W        1 assemble  2 build+serialize  3 compile  4 JIT runtime / allocator / virtmem  5 containers
-//     variant  W1-3: 0 x86-64, 1 AArch64      W4: 0 JitRuntime::add/release, 1 JitAllocator ops, 2 VirtMem ops
+//     variant  W1-3: 0 x86-64, 1 AArch64      W4: 0 JitRuntime::add/release, 1 JitAllocator ops, 2 VirtMem ops, 3 JitRuntime::add() of
+//              multi-feature programs (address table through absolute call/jmp, 1-4 sections, cross-section references, embed_label jump
+//              tables, embed_label_delta tables with expression relocations, const pools, blobs up to 70000 bytes) on a runtime created
+//              with the option set p0 (dual mapping, multiple pools, fill, immediate release, no initial padding): the FAULT WINDOW IS THE
+//              add() CALLS ONLY (building the holders is paused), so every fault position k is a heap / virtual-memory request made inside
+//              add(). A failed add() is judged on the spot - null function pointer, allocator statistics exactly those before the call (a
+//              block created for the request may stay as the pool's one empty block) - and repeated without faults (same holder, or a
+//              holder rebuilt from the same program: p3 bit 1); every installed function is decoded (absolute targets reached directly or
+//              through an address-table slot holding the target), compared with the holder's sections and CALLED against the model of its
+//              program; after releasing everything the allocator reports no allocation (see run_add)
 //     p0..p3   W1/W2: extra sections+alignment, label count, base address, bits (1 logger, 2 error handler, 8 re-run through reinit(),
 //              16 previous use + reinit() inside the fault window)   W3: virtual register count, bits (1 logger, 2 error handler,
 //              4 two functions)   W4: allocator option bits, misc   W5: arena block size
@@ -94,6 +103,8 @@ struct Entry { int kind; uint64_t k; bool from; uint64_t size; uint64_t seen; ui
 struct Blk { size_t size; uint64_t seq; int phase; };
 struct State {
   bool armed = false;      // requests are counted and failed according to the plan
+  bool paused = false;     // armed, but the workload is outside its fault window: requests are neither counted nor failed (W4 variant 3:
+                           // only the requests made inside JitRuntime::add() are fault points)
   bool tracking = false;   // live heap blocks / mappings / memfd descriptors are recorded
   int phase = 0;           // 0 reference 1 faulty 2 rerun
   uint64_t count[kKinds] = {0, 0, 0};
@@ -137,7 +148,7 @@ static __attribute__((noinline)) void site_name(char* out, size_t out_size) {
 }
 static inline uint64_t site_hash(const char* name) { return (vh::fnv1a(name, strlen(name)) & 0x3FFFFFFFull) | 1ull; }
 static inline bool should_fail(int kind, const char* what, size_t req_size, bool excluded_site = false) {
-  if (!S.armed) return false;
+  if (!S.armed || S.paused) return false;
   uint64_t idx = S.count[kind]++;
   uint64_t sh = 0;
   char nm[160];
@@ -172,9 +183,13 @@ static void arm(const std::vector<Entry>& plan) {
   S.last_fail = "";
   g_site[0] = 0;
   S.suppressed = 0;
+  S.paused = false;
   S.armed = true;
 }
-static void disarm() { S.armed = false; }
+static void disarm() { S.armed = false; S.paused = false; }
+// Fault window of a workload that is narrower than its run(): while paused, requests are not fault points.
+struct Pause { bool prev; Pause() : prev(S.paused) { S.paused = true; } ~Pause() { S.paused = prev; } };
+struct Unpause { bool prev; Unpause() : prev(S.paused) { S.paused = false; } ~Unpause() { S.paused = prev; } };
 // Called by a workload immediately before its first soft reset inside the fault window.
 static void mark_reset_point() { if (S.armed && !S.marked) { S.marked = true; for (int k = 0; k < kKinds; k++) S.mark[k] = S.count[k]; } }
 static uint64_t total_hits() { return S.hits[0] + S.hits[1] + S.hits[2]; }
@@ -305,6 +320,8 @@ struct Res {
   std::string bytes;          // output compared between the reference and a faulted-but-successful run
   std::string full;           // superset compared between the reference and the re-run (layouts that may legitimately vary under faults)
   std::string sem;            // non-empty: the workload itself observed wrong content (semantic check), with description
+  std::string sem_key;        // failure-key suffix of `sem` (empty: "wrong-content")
+  std::map<std::string, uint64_t> counts;   // class counters of the workload (reported as <W>.<name>)
   std::set<std::string> shapes;   // what the instantiation actually did (class counters)
   // ---- continue window: instruction calls whose kOutOfMemory the caller survives (cfg[7] bit 1) ----
   std::vector<uint32_t> failed_calls;       // window-call indices that returned kOutOfMemory and were survived
@@ -1561,6 +1578,17 @@ public:
 // W4 — JitRuntime::add/release (variant 0), JitAllocator alloc/write/shrink/release/query (1), VirtMem alloc/protect/dual mapping (2)
 // =============================================================================================
 #define C15_HAVE_W4
+// Targets of the absolute call / jmp instructions of variant 3 (reached through the address table of the installed code).
+static inline uint64_t c15_w4_helper_model(unsigned k, uint64_t x) {
+  switch (k & 3) { case 0: return x * 3 + 1; case 1: return (x >> 3) ^ 0x5BD1E995ull; case 2: return x + 0x0123456789ABull; default: return ~x; }
+}
+extern "C" {
+__attribute__((noinline, used)) uint64_t c15_w4_h0(uint64_t x) { return c15_w4_helper_model(0, x); }
+__attribute__((noinline, used)) uint64_t c15_w4_h1(uint64_t x) { return c15_w4_helper_model(1, x); }
+__attribute__((noinline, used)) uint64_t c15_w4_h2(uint64_t x) { return c15_w4_helper_model(2, x); }
+__attribute__((noinline, used)) uint64_t c15_w4_h3(uint64_t x) { return c15_w4_helper_model(3, x); }
+}
+static uint64_t (*const kW4Helpers[4])(uint64_t) = {c15_w4_h0, c15_w4_h1, c15_w4_h2, c15_w4_h3};
 namespace {
 static JitAllocatorOptions w4_options(int64_t p) {
   JitAllocatorOptions o = JitAllocatorOptions::kNone;
@@ -1604,6 +1632,7 @@ public:
     switch (d.variant) {
       case 0: run_runtime(r, T); break;
       case 1: run_allocator(r, T); break;
+      case 3: run_add(r, T); break;
       default: run_virtmem(r, T); break;
     }
   }
@@ -1680,6 +1709,371 @@ public:
       r.bytes += img;
       if ((d.p[2] >> f) & 1) { TRY(T, rt->release(fn), "JitRuntime::release"); fns.back() = nullptr; }
     }
+    r.full = r.bytes;
+  }
+
+  // ---- variant 3: JitRuntime::add() of multi-feature programs; ONLY the requests made inside add() are fault points ----
+  // cfg p0 allocator option bits (w4_options)   p1 bits 0-1: functions - 2 (2..5), p1 / 4 + function index: section layout (0 text only,
+  // 1 text+.data, 2 text+.data+.rodata, 3 text+.empty+.rodata(64)+.data)   p2 bit f: function f is released right after it was verified
+  // p3 bit 0: const pool in the text section   bit 1: a failed add() is repeated with a holder rebuilt from the same program (else: the
+  // SAME holder is added again)   bit 2: granularity 128   bit 3+f: function f ends with a tail `jmp <absolute>` instead of `ret`
+  // Program of one function (steps op[0] mod 16 -> kAddKinds): rdi = argument, rax = accumulator
+  //   0 add rax, imm32            1 mov rdi, rax; call <absolute 64-bit address of a helper> (address table entry; rax = helper(rax))
+  //   2 xor rax, [const]          7 lea rdx, [const]; add rax, [rdx]     (const lives in the data section: cross-section reference)
+  //   3 jump table: jmp [table + (rax & 3) * 8], table = 4 x embed_label(case, 8) in the data section (kRelToAbs relocations)
+  //   4 delta dispatch: target = base + delta[(rax & 1)], delta table = embed_label_delta(case, base, 4 | 8); emitted into .rodata BEFORE
+  //     the labels are bound (kExpression relocations) when the layout has one, else after the code (immediate values)
+  //   5 add rax, [pool + off]: 8-byte constants of a ConstPool embedded with embed_const_pool     6 data blob of 16..70000 bytes
+  //   9 jmp over 1..200 bytes of padding
+  // Every function is CALLED (arguments 0..3 and two large ones) and compared with the model evaluated by the harness.
+  struct MOp { int kind; unsigned h; uint64_t k[4]; };
+  struct AddFn {
+    std::vector<MOp> model;
+    bool tail = false; unsigned tail_h = 0;
+    unsigned layout = 0, abs_calls = 0, abs_targets = 0, xrefs = 0, tables = 0, deltas = 0, delta_relocs = 0, pool_consts = 0, blobs = 0, fwd_jumps = 0;
+    uint64_t eval(uint64_t x) const {
+      uint64_t acc = x;
+      for (const MOp& m : model) {
+        switch (m.kind) {
+          case 0: case 5: case 7: acc += m.k[0]; break;
+          case 1: acc = c15_w4_helper_model(m.h, acc); break;
+          case 2: acc ^= m.k[0]; break;
+          case 3: acc += m.k[acc & 3]; break;
+          case 4: acc += m.k[acc & 1]; break;
+          default: break;
+        }
+      }
+      if (tail) acc = c15_w4_helper_model(tail_h, acc);
+      return acc;
+    }
+  };
+
+  void emit_add_function(Tracker& T, unsigned fidx, size_t first, size_t count, AddFn& F) {
+    static const int kAddKinds[16] = {0, 1, 1, 1, 2, 3, 4, 5, 6, 9, 1, 2, 3, 4, 5, 7};
+    x86::Assembler& a = xa;
+    F.layout = unsigned(umod(d.p[1] / 4 + int64_t(fidx), 4));
+    F.tail = ((d.p[3] >> (3 + fidx)) & 1) != 0;
+    F.tail_h = unsigned(umod(d.p[2] + int64_t(fidx), 4));
+    Section* text = code.text_section();
+    Section* A = nullptr; Section* B = nullptr;
+    if (F.layout >= 1) TRY(T, code.new_section(Out(A), ".data", SIZE_MAX, SectionFlags::kNone, 16, F.layout == 3 ? 3 : 1), "CodeHolder::new_section");
+    if (F.layout >= 2) TRY(T, code.new_section(Out(B), ".rodata", SIZE_MAX, SectionFlags::kReadOnly, F.layout == 3 ? 64 : 8, 2), "CodeHolder::new_section");
+    if (F.layout == 3) { Section* E = nullptr; TRY(T, code.new_section(Out(E), ".empty", SIZE_MAX, SectionFlags::kNone, 32, 1), "CodeHolder::new_section"); }
+
+    struct Item { int kind = 0; int64_t x = 0, y = 0, z = 0; Label l[6]; uint64_t k[4] = {0, 0, 0, 0}; size_t off = 0; unsigned w = 8; };
+    std::vector<Item> items;
+    Arena pool_arena(1024);
+    ConstPool pool(pool_arena);
+    Label Lpool;
+    bool lbl_ok = true;
+    auto NL = [&](Label& l) { l = a.new_label(); if (!l.is_valid()) lbl_ok = false; };
+    std::set<unsigned> targets;
+    size_t blob_total = 0;
+    // ---- pass 1: items, labels, pool constants ----
+    for (size_t i = first; i < first + count && i < d.steps.size() && items.size() < 48; i++) {
+      const vh::Op& op = d.steps[i];
+      Item it;
+      it.kind = kAddKinds[umod(argof(op, 0), 16)];
+      it.x = argof(op, 1); it.y = argof(op, 2); it.z = argof(op, 3);
+      uint64_t hv = (uint64_t(it.x) + 1) * 0x9E3779B97F4A7C15ull + uint64_t(it.y) * 0xD1B54A32D192ED03ull;
+      switch (it.kind) {
+        case 0: it.k[0] = uint64_t(hv >> 34); break;                 // < 2^30: a positive imm32
+        case 1: targets.insert(unsigned(umod(it.x, 4))); F.abs_calls++; break;
+        case 2: case 7: NL(it.l[0]); it.k[0] = hv; F.xrefs++; break;
+        case 3: for (int j = 0; j < 6; j++) NL(it.l[j]); for (int j = 0; j < 4; j++) it.k[j] = ((hv >> (j * 8)) & 0xFFFF) + 1 + uint64_t(j); F.tables++; break;
+        case 4: for (int j = 0; j < 5; j++) NL(it.l[j]); it.k[0] = (hv & 0xFFF) + 1; it.k[1] = ((hv >> 12) & 0xFFF) + 2; it.w = (it.z & 1) ? 4 : 8; F.deltas++; break;
+        case 5: {
+          it.k[0] = hv ^ 0x5555AAAA5555AAAAull;
+          if (!Lpool.is_valid()) NL(Lpool);
+          TRY(T, pool.add(&it.k[0], 8, Out(it.off)), "ConstPool::add");
+          F.pool_consts++;
+          break;
+        }
+        case 6: {
+          static const size_t bl[] = {16, 300, 5000, 30000, 70000};
+          it.off = bl[umod(it.y, (it.z & 8) ? NELEM(bl) : NELEM(bl) - 1)];
+          if (blob_total + it.off > 150000) it.off = 16;
+          blob_total += it.off;
+          F.blobs++;
+          break;
+        }
+        default: NL(it.l[0]); F.fwd_jumps++; break;
+      }
+      items.push_back(it);
+    }
+    if (F.tail) targets.insert(F.tail_h);
+    F.abs_targets = unsigned(targets.size());
+    if (T.bad(lbl_ok ? Error::kOk : Error::kOutOfMemory, "new_label")) return;
+    auto embed_deltas = [&](Item& it) -> Error {
+      Error e = a.align(AlignMode::kData, it.w);
+      if (e == Error::kOk) e = a.bind(it.l[0]);
+      if (e == Error::kOk) e = a.embed_label_delta(it.l[2], it.l[1], it.w);
+      if (e == Error::kOk) e = a.embed_label_delta(it.l[3], it.l[1], it.w);
+      return e;
+    };
+    // ---- pass 2: delta tables that reference labels which are not bound yet (expression relocations) ----
+    if (B) {
+      TRY(T, a.section(B), "section");
+      for (Item& it : items) if (it.kind == 4) { TRY(T, embed_deltas(it), "embed_label_delta(unbound labels)"); F.delta_relocs++; }
+      TRY(T, a.section(text), "section");
+    }
+    // ---- pass 3: the code ----
+    TRY(T, a.push(x86::rbx), "emit");
+    TRY(T, a.mov(x86::rax, x86::rdi), "emit");
+    for (Item& it : items) {
+      MOp m; m.kind = it.kind; m.h = 0; for (int j = 0; j < 4; j++) m.k[j] = it.k[j];
+      switch (it.kind) {
+        case 0: TRY(T, a.add(x86::rax, imm(int32_t(it.k[0]))), "emit"); break;
+        case 1:
+          m.h = unsigned(umod(it.x, 4));
+          TRY(T, a.mov(x86::rdi, x86::rax), "emit");
+          TRY(T, a.call(imm(uint64_t(uintptr_t(kW4Helpers[m.h])))), "emit(absolute call)");
+          break;
+        case 2: TRY(T, a.xor_(x86::rax, x86::qword_ptr(it.l[0])), "emit(rip-relative)"); break;
+        case 7: TRY(T, a.lea(x86::rdx, x86::ptr(it.l[0])), "emit(lea label)"); TRY(T, a.add(x86::rax, x86::qword_ptr(x86::rdx)), "emit"); break;
+        case 3:
+          TRY(T, a.mov(x86::ecx, x86::eax), "emit"); TRY(T, a.and_(x86::ecx, imm(3)), "emit");
+          TRY(T, a.lea(x86::rdx, x86::ptr(it.l[0])), "emit(lea label)");
+          TRY(T, a.jmp(x86::qword_ptr(x86::rdx, x86::rcx, 3)), "emit(jmp table)");
+          for (int j = 0; j < 4; j++) {
+            TRY(T, a.bind(it.l[1 + j]), "bind");
+            TRY(T, a.add(x86::rax, imm(int32_t(it.k[j]))), "emit");
+            if (j < 3) TRY(T, a.jmp(it.l[5]), "emit(jump)");
+          }
+          TRY(T, a.bind(it.l[5]), "bind");
+          break;
+        case 4:
+          TRY(T, a.mov(x86::ecx, x86::eax), "emit"); TRY(T, a.and_(x86::ecx, imm(1)), "emit");
+          TRY(T, a.lea(x86::rdx, x86::ptr(it.l[0])), "emit(lea label)");
+          if (it.w == 4) TRY(T, a.movsxd(x86::rcx, x86::dword_ptr(x86::rdx, x86::rcx, 2)), "emit");
+          else TRY(T, a.mov(x86::rcx, x86::qword_ptr(x86::rdx, x86::rcx, 3)), "emit");
+          TRY(T, a.lea(x86::rdx, x86::ptr(it.l[1])), "emit(lea label)");
+          TRY(T, a.add(x86::rdx, x86::rcx), "emit");
+          TRY(T, a.jmp(x86::rdx), "emit");
+          TRY(T, a.bind(it.l[1]), "bind");
+          TRY(T, a.bind(it.l[2]), "bind");
+          TRY(T, a.add(x86::rax, imm(int32_t(it.k[0]))), "emit");
+          TRY(T, a.jmp(it.l[4]), "emit(jump)");
+          TRY(T, a.bind(it.l[3]), "bind");
+          TRY(T, a.add(x86::rax, imm(int32_t(it.k[1]))), "emit");
+          TRY(T, a.bind(it.l[4]), "bind");
+          break;
+        case 5: TRY(T, a.add(x86::rax, x86::qword_ptr(Lpool, int32_t(it.off))), "emit(rip-relative)"); break;
+        case 6: break;
+        default: {
+          std::string pad(1 + umod(it.y, 200), char(0xCC));
+          TRY(T, a.jmp(it.l[0]), "emit(jump)");
+          TRY(T, a.embed(pad.data(), pad.size()), "embed");
+          TRY(T, a.bind(it.l[0]), "bind");
+          break;
+        }
+      }
+      if (it.kind != 6 && it.kind != 9) F.model.push_back(m);
+    }
+    if (F.tail) {
+      TRY(T, a.mov(x86::rdi, x86::rax), "emit");
+      TRY(T, a.pop(x86::rbx), "emit");
+      TRY(T, a.jmp(imm(uint64_t(uintptr_t(kW4Helpers[F.tail_h])))), "emit(absolute jmp)");
+    } else {
+      TRY(T, a.pop(x86::rbx), "emit");
+      TRY(T, a.ret(), "emit");
+    }
+    // ---- pass 4: data (constants, jump tables, delta tables of bound labels, const pool, blobs) ----
+    bool pool_in_text = (d.p[3] & 1) != 0 || !A;
+    if (Lpool.is_valid() && pool_in_text) TRY(T, a.embed_const_pool(Lpool, pool), "embed_const_pool");
+    if (A) TRY(T, a.section(A), "section");
+    for (Item& it : items) {
+      switch (it.kind) {
+        case 2: case 7:
+          TRY(T, a.align(AlignMode::kData, 8), "align"); TRY(T, a.bind(it.l[0]), "bind"); TRY(T, a.embed(&it.k[0], 8), "embed");
+          break;
+        case 3:
+          TRY(T, a.align(AlignMode::kData, 8), "align"); TRY(T, a.bind(it.l[0]), "bind");
+          for (int j = 0; j < 4; j++) TRY(T, a.embed_label(it.l[1 + j], 8), "embed_label");
+          break;
+        case 4: if (!B) TRY(T, embed_deltas(it), "embed_label_delta(bound labels)"); break;
+        case 6: { std::string blob(it.off, char(it.x)); TRY(T, a.embed(blob.data(), blob.size()), "embed"); break; }
+        default: break;
+      }
+    }
+    if (Lpool.is_valid() && !pool_in_text) TRY(T, a.embed_const_pool(Lpool, pool), "embed_const_pool");
+  }
+
+  static std::string stats_text(const JitAllocator::Statistics& s) {
+    char b[200];
+    snprintf(b, sizeof b, "{blocks %zu, allocations %zu, used %zu, reserved %zu, overhead %zu}", s.block_count(), s.allocation_count(), s.used_size(), s.reserved_size(), s.overhead_size());
+    return b;
+  }
+  static __attribute__((no_sanitize("undefined"))) uint64_t call_jit(void* fn, uint64_t x) { return reinterpret_cast<uint64_t (*)(uint64_t)>(fn)(x); }
+
+  void build_add_holder(Tracker& T, unsigned f, size_t first, size_t per, AddFn& F) {
+    code.reset(d.hard ? ResetPolicy::kHard : ResetPolicy::kSoft);
+    TRY(T, code.init(rt->environment(), rt->cpu_features()), "CodeHolder::init");
+    TRY(T, code.attach(&xa), "CodeHolder::attach");
+    F = AddFn();
+    emit_add_function(T, f, first, per, F);
+  }
+
+  void run_add(Res& r, Tracker& T) {
+    fi::Pause outside;                           // nothing but JitRuntime::add() is inside the fault window
+    auto fail = [&](const char* key, const std::string& msg) { if (r.sem.empty()) { r.sem = msg; r.sem_key = key; } };
+    JitAllocatorOptions jopt = w4_options(d.p[0]);
+    uint32_t gran = (d.p[3] & 4) ? 128 : 64;
+    if (!rt) {
+      JitAllocator::CreateParams params;
+      params.options = jopt;
+      params.granularity = gran;
+      rt.reset(new JitRuntime(&params));
+    }
+    const bool dual = Support::test(jopt, JitAllocatorOptions::kUseDualMapping), immediate = Support::test(jopt, JitAllocatorOptions::kImmediateRelease),
+               padding = !Support::test(jopt, JitAllocatorOptions::kDisableInitialPadding);
+    const unsigned pools = Support::test(jopt, JitAllocatorOptions::kUseMultiplePools) ? 3 : 1;
+    unsigned nfun = 2 + unsigned(umod(d.p[1], 4));
+    size_t per = d.steps.size() / nfun + 1;
+    std::vector<void*> fns;
+    struct Release { JitRuntime* rt; std::vector<void*>& v; ~Release() { for (void* p : v) if (p) (void)rt->release(p); } } rel{rt.get(), fns};
+    r.counts["add.cases"]++;
+    if (dual) r.counts["add.dual_mapping"]++;
+    if (pools > 1) r.counts["add.multiple_pools"]++;
+    if (Support::test(jopt, JitAllocatorOptions::kFillUnusedMemory)) r.counts["add.fill_unused_memory"]++;
+    if (immediate) r.counts["add.immediate_release"]++;
+    if (!padding) r.counts["add.no_initial_padding"]++;
+    for (unsigned f = 0; f < nfun; f++) {
+      AddFn F;
+      build_add_holder(T, f, size_t(f) * per, per, F);
+      if (T.failed()) return;
+      const bool addrtab = code.has_address_table_section();
+      r.counts["add.functions"]++;
+      r.counts[std::string("add.layout_") + std::to_string(F.layout)]++;
+      if (addrtab) r.counts["add.address_table"]++;
+      if (addrtab && dual) r.counts["add.address_table_on_dual_mapping"]++;
+      if (F.abs_targets > 1) r.counts["add.address_table_2plus_entries"]++;
+      if (F.tail) r.counts["add.tail_jmp_absolute"]++;
+      if (F.abs_calls) r.counts["add.call_absolute"] += F.abs_calls;
+      if (code.section_count() >= 3) r.counts["add.3plus_sections"]++;
+      if (F.xrefs && F.layout) r.counts["add.cross_section_reference"] += F.xrefs;
+      if (F.tables) r.counts["add.embed_label_table"] += F.tables;
+      if (F.deltas) r.counts["add.embed_label_delta_table"] += F.deltas;
+      if (F.delta_relocs) r.counts["add.embed_label_delta_expression_reloc"] += F.delta_relocs;
+      if (F.pool_consts) r.counts["add.const_pool"]++;
+      if (F.blobs) r.counts["add.blob"]++;
+      if (code.has_unresolved_fixups()) r.counts["add.unresolved_fixups_before_add"]++;
+
+      void* fn = nullptr;
+      for (int attempt = 0;; attempt++) {
+        JitAllocator::Statistics s0 = rt->allocator().statistics();
+        uint64_t h0 = fi::total_hits();
+        fn = reinterpret_cast<void*>(uintptr_t(0x10));           // must be overwritten in every case
+        Error err;
+        if (attempt == 0) { fi::Unpause window; err = rt->add(&fn, &code); }
+        else err = rt->add(&fn, &code);
+        JitAllocator::Statistics s1 = rt->allocator().statistics();
+        char ctxt[300];
+        snprintf(ctxt, sizeof ctxt, "function #%u (code size %zu, %u sections%s, options 0x%X)", f, code.code_size(), unsigned(code.section_count()), addrtab ? ", address table" : "", unsigned(jopt));
+        if (err == Error::kOk) {
+          if (!fn || fn == reinterpret_cast<void*>(uintptr_t(0x10))) { fail("add-ok-without-pointer", std::string("JitRuntime::add returned kOk without a function pointer: ") + ctxt); return; }
+          if (s1.allocation_count() != s0.allocation_count() + 1) { fail("add-statistics", std::string("JitRuntime::add returned kOk but allocation_count went ") + stats_text(s0) + " -> " + stats_text(s1) + ": " + ctxt); return; }
+          if (attempt) r.counts["add.retry_succeeded"]++;
+          break;
+        }
+        // ---- add() failed ----
+        r.counts["add.failed_adds"]++;
+        r.counts[std::string("add.failed_add_error_") + std::to_string(unsigned(err))]++;
+        if (addrtab) r.counts["add.failed_add_with_address_table"]++;
+        if (attempt > 0) {
+          char m[500]; snprintf(m, sizeof m, "JitRuntime::add failed (an injected fault), memory is available again, but the repeated add() of %s returns %u %s: %s",
+                                (d.p[3] & 2) ? "a holder rebuilt from the same program" : "the same CodeHolder", unsigned(err), DebugUtils::error_as_string(err), ctxt);
+          fail((d.p[3] & 2) ? "add-after-failed-add-fails" : "add-same-holder-after-failed-add-fails", m); return;
+        }
+        if (fi::total_hits() == h0) { fail("add-fails-without-fault", std::string("JitRuntime::add returned ") + DebugUtils::error_as_string(err) + " although no request was failed during the call: " + ctxt); return; }
+        if (fn != nullptr) { fail("failed-add-returns-pointer", std::string("JitRuntime::add returned ") + DebugUtils::error_as_string(err) + " and a non-null function pointer: " + ctxt); return; }
+        // nothing may stay allocated: the statistics are those before the call. The only legitimate difference: the block that was created for
+        // the request stays as the pool's (single) empty block - JitAllocator::release() keeps one per pool unless kImmediateRelease
+        bool same = s1.allocation_count() == s0.allocation_count();
+        if (s1.block_count() == s0.block_count()) same = same && s1.used_size() == s0.used_size() && s1.reserved_size() == s0.reserved_size() && s1.overhead_size() == s0.overhead_size();
+        else {
+          size_t du = s1.used_size() - s0.used_size();
+          bool pad_ok = !padding ? du == 0 : false;
+          if (padding) for (unsigned pid = 0; pid < pools; pid++) if (du == (size_t(gran) << pid)) pad_ok = true;
+          same = same && s1.block_count() == s0.block_count() + 1 && !immediate && s1.reserved_size() > s0.reserved_size() && s1.overhead_size() > s0.overhead_size() && pad_ok;
+          r.counts["add.failed_add_kept_empty_block"]++;
+        }
+        r.counts["add.failed_add_statistics_checked"]++;
+        if (dual) r.counts["add.failed_add_statistics_checked_dual_mapping"]++;
+        if (!same) {
+          fail("failed-add-changes-allocator-statistics", std::string("JitRuntime::add returned ") + DebugUtils::error_as_string(err) + " (request failed: " + fi::S.last_fail +
+               ") but the runtime's allocator does not return to its state before the call: " + stats_text(s0) + " -> " + stats_text(s1) + " - the memory stays allocated for the lifetime of the runtime: " + ctxt);
+          return;
+        }
+        if (d.p[3] & 2) { r.counts["add.retry_with_rebuilt_holder"]++; build_add_holder(T, f, size_t(f) * per, per, F); if (T.failed()) return; }
+        else r.counts["add.retry_with_same_holder"]++;
+      }
+      fns.push_back(fn);
+      // ---- the installed image: equal to the holder's relocated sections; normalised (position independent) form -> output ----
+      size_t cs = code.code_size();
+      std::string img(static_cast<const char*>(fn), cs);
+      for (Section* s : code.sections()) {
+        if (s->offset() + s->buffer_size() > cs || memcmp(img.data() + s->offset(), s->data(), s->buffer_size()) != 0) { fail("add-image-differs-from-sections", "JitRuntime::add: installed bytes differ from the CodeHolder's relocated section buffer"); return; }
+      }
+      for (RelocEntry* re : code.reloc_entries()) {
+        Section* ss = code.section_by_id(re->source_section_id());
+        if (!ss) continue;
+        size_t pos = size_t(ss->offset() + re->source_offset()) + re->format().value_offset(), vs = re->format().value_size();
+        if (pos + vs > cs) continue;
+        if (re->reloc_type() == RelocType::kX64AddressEntry && pos >= 2 && vs == 4) {
+          // the absolute call / jmp reaches its target: directly (rel32) or through a slot of the address table that holds the target
+          uint8_t b0 = uint8_t(img[pos - 2]), b1 = uint8_t(img[pos - 1]);
+          int32_t disp; memcpy(&disp, &img[pos], 4);
+          uint64_t next = uint64_t(pos) + 4, target = 0;
+          bool decoded = true;
+          if (b0 == 0xFF && (b1 == 0x15 || b1 == 0x25)) {
+            uint64_t slot = next + uint64_t(int64_t(disp));
+            Section* at = code.address_table_section();
+            if (at && slot >= at->offset() && slot + 8 <= at->offset() + at->buffer_size() && slot + 8 <= cs) { memcpy(&target, &img[size_t(slot)], 8); r.counts["add.address_table_slot_checked"]++; }
+            else decoded = false;
+          } else if (b1 == 0xE8 || b1 == 0xE9) { target = uint64_t(uintptr_t(fn)) + next + uint64_t(int64_t(disp)); r.counts["add.absolute_target_by_rel32"]++; }
+          else decoded = false;
+          if (!decoded || target != re->payload()) {
+            char m[300]; snprintf(m, sizeof m, "JitRuntime::add: the absolute call/jmp at image offset %zu (bytes %02X %02X, displacement %d) does not reach its target 0x%llx (%s 0x%llx): function #%u",
+                                  pos - 1, b0, b1, disp, (unsigned long long)re->payload(), decoded ? "it reaches" : "not decodable, slot outside the address table;", (unsigned long long)target, f);
+            fail("add-absolute-target-not-reached", m); return;
+          }
+        }
+        if (re->reloc_type() == RelocType::kRelToAbs && vs == 8) { uint64_t v; memcpy(&v, &img[pos], 8); v -= uint64_t(uintptr_t(fn)); memcpy(&img[pos], &v, 8); }
+        else if (re->reloc_type() == RelocType::kX64AddressEntry && pos >= 2) memset(&img[pos - 2], 0, vs + 2);     // rel32 or address-table form: depends on the distance
+        else if (re->reloc_type() == RelocType::kAbsToRel) memset(&img[pos], 0, vs);
+      }
+      size_t keep = cs;
+      if (Section* at = code.address_table_section()) keep = std::min(keep, size_t(at->offset()));                // the table holds absolute addresses; judged by execution
+      put_u64(r.bytes, keep);
+      r.bytes.append(img.data(), keep);
+      // ---- the function behaves like the model ----
+      static const uint64_t kArgs[] = {0, 1, 2, 3, 0x9E3779B97F4A7C15ull, 0xFFFFFFFFFFFFFFF0ull};
+      for (uint64_t x0 : kArgs) {
+        uint64_t x = x0 + f, got = call_jit(fn, x), want = F.eval(x);
+        if (got != want) {
+          char m[300]; snprintf(m, sizeof m, "the function installed by JitRuntime::add computes f(0x%llx) = 0x%llx, the program's model says 0x%llx: function #%u", (unsigned long long)x, (unsigned long long)got, (unsigned long long)want, f);
+          fail("add-function-wrong-result", m); return;
+        }
+        put_u64(r.bytes, got);
+        r.counts["add.function_calls_checked"]++;
+      }
+      if ((d.p[2] >> f) & 1) {
+        JitAllocator::Statistics s0 = rt->allocator().statistics();
+        TRY(T, rt->release(fn), "JitRuntime::release");
+        fns.back() = nullptr;
+        if (rt->allocator().statistics().allocation_count() + 1 != s0.allocation_count()) { fail("release-statistics", "JitRuntime::release returned kOk but allocation_count did not drop by one"); return; }
+        r.counts["add.released_between_adds"]++;
+      }
+    }
+    // ---- everything released: the allocator is empty ----
+    for (void*& p : fns) if (p) { TRY(T, rt->release(p), "JitRuntime::release"); p = nullptr; }
+    JitAllocator::Statistics se = rt->allocator().statistics();
+    if (se.allocation_count() != 0 || se.used_size() > se.block_count() * (size_t(gran) << (pools - 1)) || (immediate && se.block_count() != 0)) {
+      fail("allocator-not-empty-after-release-all", std::string("every function was released but the runtime's allocator still reports ") + stats_text(se));
+      return;
+    }
+    r.counts["add.empty_after_release_all_checked"]++;
     r.full = r.bytes;
   }
 
@@ -1881,7 +2275,7 @@ static Decoded decode(const vh::Case& c) {
   Decoded d;
   auto cfg = [&](size_t i) -> int64_t { return i < c.cfg.size() ? c.cfg[i] : 0; };
   d.W = 1 + int(umod(cfg(0) - 1, 5));
-  d.variant = int(umod(cfg(1), d.W == 4 ? 3 : 2));
+  d.variant = int(umod(cfg(1), d.W == 4 ? 4 : 2));
   for (int i = 0; i < 4; i++) d.p[i] = cfg(2 + size_t(i));
   d.hard = (cfg(6) & 1) != 0;
   // continue-after-every-error mode only where every later call validates what it gets: the Assembler (W1) and the containers (W5). After a failed
@@ -1990,6 +2384,10 @@ void vh_run(const vh::Case& c, vh::Ctx& ctx) {
   const RefInfo& R = get_reference(d);
   ctx.cls(W + ".plans");
   if (R.res.err != Error::kOk || !R.res.sem.empty()) {
+    // W4 variant 3 judges what JitRuntime::add() installed (image, allocator statistics, the results of the called functions): when such a
+    // check fails without any fault the runtime is broken before a fault plan can be judged - reported, never skipped silently
+    if (d.W == 4 && d.variant == 3 && !R.res.sem.empty())
+      ctx.fail_unless_known(W + "-faultfree-" + (R.res.sem_key.empty() ? std::string("wrong-content") : R.res.sem_key), R.res.sem + " (fault-free reference run; plan " + ptxt + " not judged)");
     // the fault-free run itself reports an error: generator problem (not a violation); counted and skipped
     ctx.cls(W + ".reference_failed");
     if (ctx.opts && ctx.opts->geti("showref", 0)) fprintf(stderr, "reference failed: %s step %d err %u %s\n%s", R.res.call, R.res.step, unsigned(R.res.err), R.res.sem.c_str(), c.to_text().c_str());
@@ -2042,7 +2440,15 @@ void vh_run(const vh::Case& c, vh::Ctx& ctx) {
   };
   check_arenas("after the faulted run");
   if (hits_after_reset) { ctx.cls(W + "." + kind + ".fault_hit_after_soft_reset"); if (f.err != Error::kOk) ctx.cls(W + "." + kind + ".error_reported_after_soft_reset"); }
-  VH_CHECK(ctx, f.sem.empty(), (pfx + "wrong-content").c_str(), "%s; %s", f.sem.c_str(), where);
+  for (auto& kv : f.counts) ctx.cls(W + "." + kv.first, kv.second);
+  const bool add_variant = d.W == 4 && d.variant == 3;
+  const uint64_t failed_adds = f.counts.count("add.failed_adds") ? f.counts["add.failed_adds"] : 0;
+  if (add_variant && hit_total) {
+    ctx.cls(W + ".add.plans_with_fault_inside_add");
+    if (d.plan.size() == 1 && !d.plan[0].from && !d.plan[0].period && !d.plan[0].site && !d.plan[0].size) ctx.cls(W + ".add.fault_points_" + kind);
+    if (failed_adds > 1) ctx.cls(W + ".add.plans_with_2plus_failed_adds");
+  }
+  VH_CHECK(ctx, f.sem.empty(), (pfx + (f.sem_key.empty() ? std::string("wrong-content") : f.sem_key)).c_str(), "%s; %s", f.sem.c_str(), where);
   // ---- continue window ----
   // (a) right after every window call - above all after a FAILED one - the emitter holds no one-shot state
   if (f.win_calls) {
@@ -2131,6 +2537,15 @@ void vh_run(const vh::Case& c, vh::Ctx& ctx) {
       if (ctx.want_sample() && !f.failed_calls.empty()) ctx.sample(W + " variant " + std::to_string(d.variant) + " " + ptxt + " -> " + std::to_string(f.failed_calls.size()) + " window call(s) returned kOutOfMemory, the caller continued; output = program minus those calls");
     } else if (!f.failed_calls.empty() || !f.dropped_comments.empty()) {
       ctx.cls(W + "." + kind + ".continued_unmodelled");
+    } else if (failed_adds) {
+      // W4 variant 3: every failed JitRuntime::add() was judged (null pointer, allocator statistics) and repeated without faults
+      ctx.cls(W + "." + kind + ".add_failed_and_repeated");
+      ctx.nontrivial();
+      if (ctx.want_sample()) ctx.sample(W + " variant 3 (allocator options " + std::to_string(d.p[0] & 31) + ") " + ptxt + " -> " + std::to_string(failed_adds) + " JitRuntime::add call(s) failed (" + failed_request +
+                                        "): null pointer, allocator statistics unchanged, repeated add() succeeded, functions called");
+      VH_CHECK(ctx, f.bytes == R.res.bytes, (pfx + "add-output-differs-after-failed-add").c_str(),
+               "%llu JitRuntime::add call(s) failed and were repeated, but the installed code / the results of the functions differ from the fault-free run (%s); %s",
+               (unsigned long long)failed_adds, diff_text(f.bytes, R.res.bytes).c_str(), where);
     } else {
       ctx.cls(W + "." + kind + ".completed_despite_fault");
       if (getenv("C15_DEBUG") && f.bytes != R.res.bytes) { fprintf(stderr, "DIFF %s %s\n", ptxt.c_str(), failed_request); static int n = 0; char fn[64]; snprintf(fn, sizeof fn, "/tmp/c15_diff_%d.case", n++); vh::write_file(fn, c.to_text() + "end\n"); }
@@ -2148,7 +2563,7 @@ void vh_run(const vh::Case& c, vh::Ctx& ctx) {
     w->run(r2);
     VH_CHECK(ctx, r2.err == Error::kOk, (pfx + "rerun-error").c_str(), "after reset(%s) the fault-free re-run on the same objects fails: %s returned %u at step %d; %s",
              d.hard ? "hard" : "soft", r2.call, unsigned(r2.err), r2.step, where);
-    VH_CHECK(ctx, r2.sem.empty(), (pfx + "rerun-wrong-content").c_str(), "%s; %s", r2.sem.c_str(), where);
+    VH_CHECK(ctx, r2.sem.empty(), (pfx + "rerun-" + (r2.sem_key.empty() ? std::string("wrong-content") : r2.sem_key)).c_str(), "%s; %s", r2.sem.c_str(), where);
     if (getenv("C15_DEBUG") && r2.full != R.res.full) fprintf(stderr, "---- reference tail ----\n%.600s\n---- rerun tail ----\n%.600s\n", R.res.full.c_str() + std::min(R.res.bytes.size(), R.res.full.size()), r2.full.c_str() + std::min(r2.bytes.size(), r2.full.size()));
     VH_CHECK(ctx, r2.bytes == R.res.bytes && r2.full == R.res.full, (pfx + "rerun-differs").c_str(),
              "after reset(%s) the fault-free re-run on the same objects produces different output (output: %s; with layout/log: %s); %s", d.hard ? "hard" : "soft",
@@ -2226,7 +2641,10 @@ rc::Gen<vh::Case> vh_gen(const vh::Opts&) {
     // mode: bit 0 continue after every error (W1/W5), bit 1 continue window (W1-W3: a failed instruction of the window is survived)
     static const int modes[] = {1, 1, 2, 2, 3, 0, 0, 0};
     int mode = modes[*vh::irange<int>(0, 7)];
-    return {W, *vh::irange<int>(0, 2), *vh::irange<int>(0, 63), *vh::irange<int>(0, 63), *vh::irange<int>(0, 63), *vh::irange<int>(0, 63),
+    // W4: half of the instantiations are variant 3 (JitRuntime::add of multi-feature programs, fault window = add())
+    static const int w4var[] = {0, 1, 2, 3, 3, 3};
+    int var = W == 4 ? w4var[*vh::irange<int>(0, 5)] : *vh::irange<int>(0, 2);
+    return {W, var, *vh::irange<int>(0, 63), *vh::irange<int>(0, 63), *vh::irange<int>(0, 63), *vh::irange<int>(0, 63),
             *vh::irange<int>(0, 1), mode, hist};
   });
   return gen::apply([](std::vector<int64_t> cfg, std::vector<vh::Op> steps, std::vector<vh::Op> plan) {
@@ -2324,6 +2742,7 @@ static std::map<std::string, uint64_t> g_enum_points;
 static std::set<std::string> g_enum_sites;
 
 static void build_window_enumeration(const vh::Opts& o, const std::function<void(const vh::Case&)>& enum_add);
+static void build_add_enumeration(const vh::Opts& o, const std::function<void(const vh::Case&)>& enum_add);
 static void build_enumeration(const vh::Opts& o) {
   g_enum = new std::vector<vh::Case>();
   // only this worker's share is stored (the cases stay live for the whole run and every LeakSanitizer check walks the live heap)
@@ -2434,6 +2853,70 @@ static void build_enumeration(const vh::Opts& o) {
     }
   }
   build_window_enumeration(o, enum_add);
+  build_add_enumeration(o, enum_add);
+}
+
+// ---- W4 variant 3: JitRuntime::add() of multi-feature programs on runtimes of every allocator option set. The fault window is the
+// add() calls: EVERY heap and EVERY virtual-memory request made inside add() fails once, plus persistent failure of each requesting
+// function, 'every request from k on', periodic plans, and every PAIR of heap positions / heap x vm positions (two add() calls of one
+// runtime fail) ----
+static void build_add_enumeration(const vh::Opts& o, const std::function<void(const vh::Case&)>& enum_add) {
+  if (!g_enable[4]) return;
+  // 1 dual mapping  2 multiple pools  4 fill unused memory  8 immediate release  16 no initial padding
+  static const int64_t kOpt[] = {0, 1, 2, 4, 8, 1 | 2 | 4, 1 | 8, 16, 1 | 2 | 4 | 8 | 16, 2 | 8};
+  size_t nprog = size_t(o.geti("addprogs", o.is_thorough() ? 6 : 2));
+  for (size_t oi = 0; oi < NELEM(kOpt); oi++) {
+    for (size_t pi = 0; pi < nprog; pi++) {
+      vh::Case base;
+      Decoded d;
+      RefInfo R;
+      std::map<uint64_t, std::pair<uint64_t, std::string>> sites[fi::kKinds];
+      bool ok = false;
+      // an instantiation must contain what the class needs: a function with an address table and an add() that creates a block
+      for (uint64_t attempt = 0; attempt < 8 && !ok; attempt++) {
+        base = fixed_instance(4, 3, 300 + oi * 64 + pi * 8 + attempt, 24 + 8 * (pi % 3));
+        base.cfg[2] = kOpt[oi];
+        base.cfg[5] = (base.cfg[5] & ~int64_t(2)) | int64_t((pi & 1) << 1);     // repeated add(): same holder / rebuilt holder
+        d = decode(base);
+        vh::write_current(base.to_text());          // the reference run CALLS the installed functions: a crash here is replayable
+        fi::S.tracking = false;
+        for (auto& m : sites) m.clear();
+        fi::S.sites = sites; fi::S.record_sites = true;
+        run_reference(d, R);
+        fi::S.record_sites = false; fi::S.sites = nullptr;
+        ok = R.res.err == Error::kOk && R.res.sem.empty() && R.res.counts.count("add.address_table") && R.n[fi::kHeap] >= 2 && R.n[fi::kVm] >= 1;
+      }
+      if (!ok && !R.res.sem.empty()) enum_add(base);      // vh_run reports the failed fault-free check
+      if (!ok) { fprintf(stderr, "C15: add instantiation (options %lld, program %zu) unusable: %s -> %u at step %d %s\n", (long long)kOpt[oi], pi, R.res.call, unsigned(R.res.err), R.res.step, R.res.sem.c_str()); continue; }
+      g_enum_points["w4.add.instantiations"]++;
+      for (int kind = fi::kHeap; kind <= fi::kVm; kind++) {
+        const uint64_t n = R.n[kind];
+        g_enum_points[std::string("w4.add.") + fi::kKindName[kind]] += n;
+        for (uint64_t k = 0; k <= n; k++) { vh::Case c = base; c.ops.push_back(fault_op(kind, int64_t(k), 0)); enum_add(c); }
+        for (auto& kv : sites[kind]) {
+          g_enum_sites.insert(std::string(fi::kKindName[kind]) + ":" + kv.second.second);
+          for (int half = 0; half < 2; half++) {
+            if (half && kv.second.first < 2) continue;
+            vh::Case c = base;
+            c.ops.push_back(vh::Op{90, kind, int64_t(half ? kv.second.first / 2 : 0), 1, 0, int64_t(kv.first)});
+            enum_add(c);
+          }
+        }
+        for (uint64_t q = 0; q < 4 && n > 0; q++) { vh::Case c = base; c.ops.push_back(fault_op(kind, int64_t(n * q / 4), 1)); enum_add(c); }
+        for (int64_t p = 2; p <= 3; p++) for (int64_t i = 0; i < p; i++) { vh::Case c = base; c.ops.push_back(vh::Op{90, kind, i, 0, 0, 0, p, 0}); enum_add(c); }
+      }
+      // two failures in one run: every pair of heap positions, every heap position with every 2nd vm position
+      const uint64_t nh = std::min<uint64_t>(R.n[fi::kHeap], 24), nv = std::min<uint64_t>(R.n[fi::kVm], 48);
+      for (uint64_t i = 0; i < nh; i++) for (uint64_t j = i + 1; j < nh; j++) {
+        vh::Case c = base; c.ops.push_back(fault_op(fi::kHeap, int64_t(i), 0)); c.ops.push_back(fault_op(fi::kHeap, int64_t(j), 0)); enum_add(c);
+        g_enum_points["w4.add.heap_pairs"]++;
+      }
+      for (uint64_t i = 0; i < nh; i++) for (uint64_t j = (i & 1); j < nv; j += 2) {
+        vh::Case c = base; c.ops.push_back(fault_op(fi::kHeap, int64_t(i), 0)); c.ops.push_back(fault_op(fi::kVm, int64_t(j), 0)); enum_add(c);
+        g_enum_points["w4.add.heap_vm_pairs"]++;
+      }
+    }
+  }
 }
 
 // ---- continue windows (W1-W3): EVERY arena / heap position inside the window fails once, and periodic plans (requests lo+i,
